@@ -13,6 +13,7 @@ import UnifexModel.Driver.Entries.Ctx
 import UnifexModel.Driver.Entries.SpawnFuture
 import UnifexModel.Driver.Entries.Coro
 import UnifexModel.Driver.Entries.Mutex
+import UnifexModel.Driver.Entries.Cancel
 
 namespace Unifex.Driver
 
@@ -34,6 +35,11 @@ def table : List ModelEntries :=
   , Entries.mutexv2
   , Entries.mutexv2fix
   , Entries.alist
+  , Entries.cancellable
+  , Entries.cancellableafter
+  , Entries.detachoncancel
+  , Entries.canary
+  , Entries.stoponrequest
   ]
 
 def lookup (m c : String) : Option Entry :=
